@@ -69,6 +69,18 @@ theorem C14_rerun (c : Cfg) (hco : CloseOk c) (s0 : St) (b : Bool) (h : (runFore
   refine ⟨by simp [h1], ?_⟩
   simp [control, prologue, h1, h2, h4, h5]
 
+/-- **C14_rerun_settings** — the keepalive settings are arguments of each `run_forever` call (`runManyK`): whatever settings
+    a run had and whatever it left unanswered, after it returned the object is — in every field a run reads — a fresh one for
+    the next call, whose own settings then apply. (An instance of `C14_rerun`: its conclusion does not mention the settings.) -/
+theorem C14_rerun_settings (c : Cfg) (hco : CloseOk c) (iv : Int) (to : Option Int) (s0 : St) (b : Bool)
+    (h : (runForeverO { c with iv := iv, to := to } s0).2 = .returned b) :
+    (runForever { c with iv := iv, to := to } s0).sock.isSome = false ∧
+    control (prologue (runForever { c with iv := iv, to := to } s0)) = control (prologue ({} : St)) :=
+  C14_rerun { c with iv := iv, to := to } hco s0 b h
+
+theorem runManyK_cons (c : Cfg) (iv : Int) (to : Option Int) (w : List Dial) (ws : List ((Int × Option Int) × List Dial)) (s : St) :
+    runManyK c (((iv, to), w) :: ws) s = runManyK c ws (runForever { c with iv := iv, to := to } { s with dials := w }) := rfl
+
 /-- **C14_terminates** (one connection) — for every legal traffic history followed by a terminating event
     (close frame with or without body, end of stream, reset, protocol or payload error), callbacks that
     return or raise, any subset of callbacks: run_forever returns -- True after an error, False after the
